@@ -205,7 +205,47 @@ def c07(ctx):
     stateless(ctx, "Ops", {"OpApply", "OpBF"}, case_filter=lambda c: c["tag"] in ("bf", "expr", "prim"))
 
 
+def c19(ctx):
+    """The exact-archetype build is the check: harness/c19_inst.cpp explicitly
+    instantiates / uses every core template and the generic interpolate with
+    Rat (only the documented operations).  Then a cross-section of the exact
+    families is replayed with every contract enabled (view ALL)."""
+    import subprocess
+    inc = ["-I", os.path.join(vlib.REPO, "include"), "-I", vlib.HARNESS]
+    wd = vlib.ensure(os.path.join(ctx.work, "c19"))
+    programs = 0
+    for comp in ("g++", "clang++-14"):
+        exe = os.path.join(wd, "c19_rat_" + comp)
+        p = subprocess.run([comp, "-std=c++17", "-O1", "-w", "-DC19_MAIN"] + inc + [os.path.join(vlib.HARNESS, "c19_inst.cpp"), "-o", exe],
+                           stdout=subprocess.PIPE, stderr=subprocess.STDOUT, text=True, timeout=900)
+        programs += 1
+        if p.returncode != 0:
+            q = subprocess.run([comp, "-std=c++17", "-O1", "-w", "-DC19_MAIN", "-DC19_SCALAR=double"] + inc +
+                               [os.path.join(vlib.HARNESS, "c19_inst.cpp"), "-o", exe + "_double"],
+                               stdout=subprocess.PIPE, stderr=subprocess.STDOUT, text=True, timeout=900)
+            if q.returncode != 0:
+                raise MachineryFailure("the library does not compile even with double (%s):\n%s" % (comp, q.stdout[-2000:]))
+            ctx.violations.append(({"op": "CompileWithArchetype", "compiler": comp}, {"diagnostics": p.stdout[-6000:]},
+                                   "the exact archetype scalar (documented operations only) no longer compiles, double does"))
+            return
+        r = subprocess.run([exe], stdout=subprocess.PIPE, stderr=subprocess.STDOUT, timeout=300)
+        if r.returncode != 0:
+            ctx.violations.append(({"op": "RunWithArchetype", "compiler": comp}, {"rc": r.returncode, "output": r.stdout.decode(errors="replace")[-2000:]},
+                                   "results with the exact field type are not exact / the run failed"))
+            return
+    ctx.cov["programs"] = programs
+    import zlib
+    pick = lambda c: zlib.crc32(json.dumps(c, sort_keys=True).encode()) % 8 == 0
+    stateless(ctx, "Gen", {"Gen"}, prop_view="ALL", case_filter=lambda c: c["p"] <= 2 and c["route"] == 0)
+    stateless(ctx, "Ops", {"OpApply", "OpBF"}, prop_view="ALL", case_filter=lambda c: c["tag"] in ("prim", "expr", "bf") and pick(c))
+    stateless(ctx, "Spl", {"SplBin", "SplUn", "SplEval", "SplLin"}, prop_view="ALL", case_filter=pick)
+    ctx.cov["explanation"] = ("harness/c19_inst.cpp (explicit instantiation + use of every core template and interpolate<Rat,.,GaussSolver>) "
+                              "compiled with g++ 12 and clang++ 14 against the archetype scalar Rat and ran with exact results; "
+                              "a cross-section of the exact conformance families was replayed with every contract enabled")
+
+
 PROPS = {
+    "C19": dict(fn=c19, level="other"),
     "C01": dict(fn=c01, level="model_checking"),
     "C04": dict(fn=c04, level="model_checking"),
     "C05": dict(fn=c05, level="model_checking"),
